@@ -52,11 +52,16 @@ def gen_cases(tier, seed):
         if k % 4 == 2:
             o.update(include_screening=True, screening_tolerance=1e-3, max_iterations_per_step=200)
         cases.append({"device": dev, "options": o, "drive": {}, "regime": "stable", "frac": float(rng.uniform(0.3, 0.9)), "steps": 120, "cost": 8})
-    nh = 6 if tier == "quick" else 30
+    for k in range(2 if tier == "quick" else 6):
+        # very small initial step (1e-10 .. 1e-9): in a quiescent state the adaptive step still grows to dt_max
+        dev = zoo.gen_device(rng, n_terminals=0, n_holes=int(k % 2), probes=0, size="small", smooth=int(rng.choice([0, 10])), gamma=float([1.0, 0.0][k % 2]), u=5.79)
+        o = dict(adaptive=True, dt_init=float([1e-10, 1e-9][k % 2]), save_every=20, field_units="mT", current_units="uA", output="file", terminal_psi=0.0, adaptive_window=int(rng.choice([2, 5])))
+        cases.append({"device": dev, "options": o, "drive": {}, "regime": "stable", "frac": 0.9, "steps": 120, "cost": 6})
+    nh = 8 if tier == "quick" else 32
     for k in range(nh):
         # histories: the undriven run is not the first thing that happens to the Device / SolverOptions object
-        hist = ["after_pinned_run", "options_reused", "seeded_fixed_step"][k % 3]
-        nt = [2, 3][k % 2] if hist == "after_pinned_run" else int([0, 2][(k // 2) % 2])
+        hist = ["after_pinned_run", "options_reused", "seeded_fixed_step", "options_reloaded"][k % 4]
+        nt = [2, 3][k % 2] if hist in ("after_pinned_run", "options_reloaded") else int([0, 2][(k // 2) % 2])
         dev = zoo.gen_device(rng, n_terminals=nt, n_holes=0, probes=0, size="small", film_kind="box" if nt else None, smooth=int(rng.choice([0, 10])),
                              gamma=float([10.0, 1.0, 0.0][k % 3]))
         o = dict(adaptive=True, dt_init=1e-4, save_every=20, field_units="mT", current_units="uA", output="file",
@@ -119,6 +124,17 @@ def run_case(spec):
         o["solve_time"] = spec["steps"] * o["dt_init"]
         sp["options"] = o
         run_kwargs["seed_solution"] = r0.solution
+    elif hist == "options_reloaded":
+        # the options (unpinned terminals: terminal_psi=None) come back from the file of an earlier, identical run
+        import tdgl
+
+        r0 = sim.run_sim(dict(sp, options=dict(o, solve_time=10 * o["dt_max"])), [], device=dev, keep_dir=True)
+        if r0.refused or r0.exception is not None or r0.solution is None:
+            return {"violations": [], "counters": {"refused_mesh": 1}, "classes": ["refused"], "nontrivial": False}
+        loaded = tdgl.Solution.from_hdf5(r0.solution.path)
+        lo = loaded.options
+        lo.solve_time = o["solve_time"]
+        run_kwargs["options_obj"] = lo
     elif hist == "options_reused":
         # ONE SolverOptions object: first a fixed-step run, then the user switches adaptivity on and runs again
         import dataclasses
@@ -157,6 +173,22 @@ def run_case(spec):
         rr.cleanup()
         return {"status": "harness_error", "error": "undriven run raised: " + repr(exc)[:300]}
     fd = mon.first_dev
+    if spec["regime"] == "stable" and rr.solution is not None and exc is None:
+        # what the Solution reports about this run: current densities exactly zero (and finite) at every saved step
+        sol_ = rr.solution
+        C["derived_quantity_checks"] = 0
+        try:
+            for st_ in range(int(sol_.data_range[0]), int(sol_.data_range[1]) + 1):
+                sol_.solve_step = st_
+                C["derived_quantity_checks"] += 1
+                for nm_ in ("supercurrent_density", "normal_current_density", "current_density"):
+                    arr_ = np.asarray(getattr(sol_, nm_).magnitude)
+                    if not np.all(np.isfinite(arr_)) or np.any(arr_ != 0):
+                        V.append({"kind": "reported_current_density_not_zero", "mechanism": "reported_current_density_not_zero",
+                                  "detail": {"quantity": nm_, "step": st_, "nonfinite": int((~np.isfinite(arr_)).sum()), "max_abs": float(np.nanmax(np.abs(arr_))) if np.isfinite(arr_).any() else None}})
+                        raise StopIteration
+        except StopIteration:
+            pass
     if spec["regime"] == "stable":
         C["stable_regime_runs"] = 1
         C["stable_regime_steps"] = mon.C.get("steps_checked", 0)
